@@ -288,8 +288,8 @@ theorem K_leafitem {fs0 fs : Fs} {ds : List Bytes} {done : List Item} (hk : K T 
   rcases hkind with hreg | ⟨hlnk, hlt⟩
   · have h1 := fileCreate_vacant it.content (hres true) hv (nameTooLong_of_short hTs hs)
     -- the second call sees the file just created
-    let fs1 := fs.set (T ++ compsD it.path) (.file it.content 0o644)
-    have hg1 : fs1.get (T ++ compsD it.path) = some (.file it.content 0o644) := by simp [fs1, get_set]
+    let fs1 := fs.set (T ++ compsD it.path) (.file it.content (fs.masked 0o666))
+    have hg1 : fs1.get (T ++ compsD it.path) = some (.file it.content (fs.masked 0o666)) := by simp [fs1, get_set]
     have hres1 : resolve fs1 true (T ++ compsD it.path) = .ok (T ++ compsD it.path) := by
       refine resolve_of_dirs hT true _ hn (fun k a b => ?_) (fun k hk' => ?_) (fun _ t h => by rw [hg1] at h; cases h)
       · obtain ⟨m, hm⟩ := hk.top k a b
